@@ -35,6 +35,16 @@ fn dispatch(prop: &str, tier: &str, seed: u64, rest: &[String]) -> i32 {
             vh::c01::run(&mut rep, tier);
             rep.finish()
         }
+        "C08" => {
+            let mut rep = Report::new("C08", ev_tier, seed);
+            vh::c08::run(&mut rep, tier);
+            rep.finish()
+        }
+        "C17" => {
+            let mut rep = Report::new("C17", ev_tier, seed);
+            vh::c17::run(&mut rep, tier);
+            rep.finish()
+        }
         "C20" => {
             let mut rep = Report::new("C20", ev_tier, seed);
             vh::c20::run(&mut rep, tier);
